@@ -3,7 +3,7 @@
    Model: Model/EsClient.v (retry machine [handle]/[lineage], batcher [bstep], token pool machine [mstep]);
    statement as a decision procedure on observations: Judge/E7.v [spec_c14] with the closed form [fate]. *)
 From Coq Require Import List ZArith Bool Arith Lia.
-From FB Require Import Lib.Sexp Lib.Eqb Lib.E7Lib Model.EsClient Judge.E7 Proofs.EsProofs.
+From FB Require Import Lib.Sexp Lib.Eqb Lib.E7Lib Model.EsClient Judge.E7 Proofs.EsProofs Proofs.EsSpecProofs.
 Import ListNotations.
 Open Scope Z_scope.
 
@@ -83,6 +83,37 @@ Theorem C14_wrong_type : forall cfg s id,
   /\ b_direct (bstep cfg s (OpBad id)) = b_direct s ++ [(id, AOther)].
 Proof. exact bad_not_enqueued. Qed.
 
+(* EVERY script - whole-request errors (finitely many, then retried for ever by the code) and late responses
+   included -: each document of a batch gets exactly one answer, nobody else gets any, the model's fuel suffices *)
+Theorem C14_answered_once_any_script : forall cfg sc b,
+  NoDup (map d_id b) ->
+  let tr := lineage (fuel_for cfg sc) cfg sc (fresh b) in
+  tr_fuel_out tr = false
+  /\ (forall d, In d b -> length (answers_of (d_id d) (tr_answers tr)) = 1%nat)
+  /\ (forall id, ~ In id (map d_id b) -> answers_of id (tr_answers tr) = [] /\ count_calls id (tr_calls tr) = 0%nat).
+Proof. exact batch_once. Qed.
+
+(* The decision procedure that is evaluated on the implementation's observations, evaluated on the model's own
+   observation, for EVERY scenario of the quantifier (any ops, sizes >= 1, distinct events, any script incl. whole-request
+   errors and late responses, clean or abrupt Shutdown): the ONLY failing clauses are clause 6 / detail 1, one per
+   request that was still in the pending batch when Shutdown ran.  Hence a failing clause 1-5, 7 on the implementation
+   is a violation of the property by the implementation and never an artefact of the model. *)
+Theorem C14_spec_model : forall i,
+  in_domain14 i = true ->
+  spec_c14 i (model_eobs i)
+  = map (fun d => clause 14 6 [L 1; L (d_id d)]) (e_dropped (es_run (ei_cfg i) (ei_script i) (ei_ops i) (ei_clean i))).
+Proof. exact spec_c14_model. Qed.
+
+(* with a clean Shutdown (arrivals paused first) every clause holds *)
+Theorem C14_spec_sound_clean : forall i,
+  in_domain14 i = true -> ei_clean i = true -> spec_c14 i (model_eobs i) = [].
+Proof. exact spec_c14_sound_clean. Qed.
+
+(* the closed form the decision procedure uses for "still pending at Shutdown" is the batcher's pending batch *)
+Theorem C14_pending_closed_form : forall cfg ops,
+  (1 <= batch_size cfg)%nat -> b_pending (brun cfg ops) = pending_at_end cfg ops.
+Proof. exact pending_closed. Qed.
+
 (* ---------- the part of the statement that is FALSE of the current code ---------- *)
 (* the full statement, as the judge evaluates it: on every scenario of the quantifier the model's observation
    passes every clause *)
@@ -141,5 +172,9 @@ Print Assumptions C14_pool.
 Print Assumptions C14_idle_flush.
 Print Assumptions C14_arrival.
 Print Assumptions C14_wrong_type.
+Print Assumptions C14_answered_once_any_script.
+Print Assumptions C14_spec_model.
+Print Assumptions C14_spec_sound_clean.
+Print Assumptions C14_pending_closed_form.
 Print Assumptions C14_shutdown_refuted.
 Print Assumptions C14_full_statement_refuted.
